@@ -107,7 +107,7 @@ def execute(chk, bindir, items, tag):
         runs += 1
         log = os.path.join(chk.work, "sysinj_%s_%d.ndjson" % (tag, runs))
         rc, so, se, ev = SJ.run_traced([os.path.join(bindir, "sysw"), "run", plan, str(start)], log,
-                                       budget=BUDGET, timeout=900)
+                                       budget=BUDGET, timeout=int(900 * SJ.load_factor()))
         results = {}
         for line in so.splitlines():
             try:
@@ -144,6 +144,22 @@ def execute(chk, bindir, items, tag):
         start = idx[nxt] if nxt < len(idx) else None
         if runs > 2000:
             raise core.ToolError("too many driver restarts")
+    # wall-clock: the only time limit that can end an invocation is the tracer's -t; such an outcome
+    # becomes a verdict only if the single invocation, re-run alone with a stretched limit, times out
+    # again in 2 of 2 attempts
+    if tag != "reconfirm":
+        trips = []
+        for it in items:
+            o = out.get(it["i"])
+            if o is None or o["ended"] != "timeout":
+                continue
+            again = [execute(chk, bindir, [it], "reconfirm").get(it["i"]) for _ in range(2)]
+            good = [a for a in again if a is not None and a["ended"] != "timeout"]
+            if good:
+                out[it["i"]] = good[0]
+                trips.append({"w": it["w"], "raws": it["raws"]})
+        chk.extra.setdefault("wall_clock_trips_not_reproduced", [])
+        chk.extra["wall_clock_trips_not_reproduced"] += trips
     chk.extra["driver_runs_" + tag] = runs
     return out
 
